@@ -17,3 +17,32 @@ def ndft(x, coord, nd):
     xb = x.reshape(-1, int(np.prod(grid))).astype(np.complex128)
     y = xb @ E.T
     return y.reshape(x.shape[:-nd] + coord.shape[:-1])
+
+
+def ndft_separable(x, coord, nd):
+    """The same transform without the matrix, for problems of realistic size: per point the
+    kernel exp(-2 pi i k.(n - N//2)/N) is a product of one vector per axis, contracted axis by
+    axis (cost: one pass over x per point; memory: one copy of x)."""
+    grid = x.shape[-nd:]
+    coord = np.asarray(coord, float).reshape(-1, nd)
+    xb = np.asarray(x).astype(np.complex128, copy=False)
+    out = np.zeros(x.shape[:-nd] + (coord.shape[0],), np.complex128)
+    for j, k in enumerate(coord):
+        t = xb
+        for d in range(nd - 1, -1, -1):
+            n = grid[d]
+            t = t @ np.exp(-2j * np.pi * k[d] * (np.arange(n) - n // 2) / n)
+        out[..., j] = t
+    return out / np.sqrt(np.prod(grid))
+
+
+def ndft_adjoint_at(d, coord, grid, voxels):
+    """Exact adjoint sum_j d[..., j] conj(E[j, n]) at the listed voxels n (rows of indices)."""
+    coord = np.asarray(coord, float).reshape(-1, len(grid))
+    vox = np.asarray(voxels, float).reshape(-1, len(grid))
+    ph = np.zeros((vox.shape[0], coord.shape[0]))
+    for a, n in enumerate(grid):
+        ph += np.outer((vox[:, a] - n // 2) / n, coord[:, a])
+    EH = np.exp(2j * np.pi * ph) / np.sqrt(np.prod(grid))            # [V, M]
+    db = np.asarray(d).reshape(d.shape[:-1] + (-1,)).astype(np.complex128)
+    return db @ EH.T                                                  # [..., V]
